@@ -189,18 +189,10 @@ func checkAckPersist(o *Observed) []Finding {
 	var out []Finding
 	// one logical request = one tag; requests carrying an idempotency key are one logical request per key, whatever their
 	// payload says (a second request under a recorded key is answered with the recorded outcome and writes nothing)
-	ikOfTag := map[string]string{}
-	for _, r := range o.Recs {
-		if r.Op.IK != "" && !r.Op.DryRun {
-			ikOfTag[r.Op.Tag] = r.Op.IK
-		}
-	}
+	// (a tag alone says nothing about the key: the reverts of one target share a tag whether they carry a key or not)
 	ident := func(tag, ik string) string {
 		if ik != "" {
 			return "key:" + ik
-		}
-		if k, ok := ikOfTag[tag]; ok {
-			return "key:" + k
 		}
 		return tag
 	}
